@@ -8,7 +8,7 @@ HOOK_COMMITS = subprocess.run(["git", "-C", "/repo", "log", "--format=%H %s", "-
 CHECKS = {
     "C01": dict(cat="exploration", design="DESIGN.md §3 C01",
                 technique="runtime monitoring: scripted-transport workload + generator-as-oracle byte comparison (exhaustive small segmentations + seeded random)",
-                text="Runs the production response pipeline against generator-built responses over all framings, chunkings, segmentations (all 2^(n-1) splits of small wires, every split point of 24 bases, random) and caller read plans; the oracle compares every delivered byte with the generator's payload. Held on the executions explored, not a proof.",
+                text="Runs the production response pipeline against generator-built responses over all framings, chunkings, segmentations (all 2^(n-1) splits of small wires, every split point of 24 bases, random) and caller read plans; the oracle compares every delivered byte with the generator's payload. Held on the executions explored, not a proof. Two-step use of a response (a few read() calls, then a convenience reader) and chunk-size lines zero-padded beyond 16 digits are part of the plans and styles.",
                 note="Trusts the harness generator/oracle and that hook H1 replaces only the TCP dial. Universality over payload x chunking x segmentation x read plan is sampled except in the enumerated sub-spaces."),
     "C02": dict(cat="fault_enumeration", design="DESIGN.md §3 C02",
                 technique="runtime monitoring with fault injection: every cut offset / I/O-error offset / framing-byte corruption through the scripted transport, strict RFC 9112 reference decoder as online prefix oracle after every read",
@@ -16,19 +16,19 @@ CHECKS = {
                 note="Trusts the reference decoder and its gray-zone classification (lenient-parser deviations are executed but not judged beyond the prefix rule). Complete for the fixed bases; sampled elsewhere."),
     "C03": dict(cat="exploration", design="DESIGN.md §3 C03",
                 technique="runtime monitoring over a bounded-exhaustive configuration matrix: scripted responses whose trailing bytes make each framing interpretation recognisable, reference decision list as oracle",
-                text="Enumerates method x status x Content-Length configuration x Transfer-Encoding configuration x extra bytes (20k heads, x3 segmentations in thorough) through the production pipeline; the body delivered must be the one of the framing the RFC 9112 §6.3 decision list selects, and invalid or disagreeing lengths must fail the exchange. Followed redirects with an unusable Content-Length must fail before a second request. Bodiless responses also declare content codings; Content-Length values with control characters must fail.",
+                text="Enumerates method x status x Content-Length configuration x Transfer-Encoding configuration x extra bytes (20k heads, x3 segmentations in thorough) through the production pipeline; the body delivered must be the one of the framing the RFC 9112 §6.3 decision list selects, and invalid or disagreeing lengths must fail the exchange. Followed redirects with an unusable Content-Length must fail before a second request. Bodiless responses also declare content codings; Content-Length values with control characters must fail. Transfer-Encoding values with HTAB white space, empty list members and a later empty field line are part of the matrix.",
                 note="The decision list in the harness is written from the statement; combinations the statement does not fix are executed but not judged (listed in the evidence assumptions)."),
     "C04": dict(cat="exploration", design="DESIGN.md §3 C04",
                 technique="runtime monitoring: generator-built response heads through the scripted transport, generator-as-oracle comparison of status and per-name header sequences",
-                text="All status codes 100..999, generated header lists (token-alphabet names, obs-text, blanks, duplicates, bare-LF continuations, > 8 KiB blocks, exactly max_headers fields) under all 2^13 segmentations of a 14-byte head, every split point of 10 bases, bytewise and random segments; status(), per-name get_all() order and values, total count and the hiding of Transfer-Encoding are compared with what the generator put on the wire. Boundary values of max_headers (0 ... usize::MAX) accept heads within them.",
+                text="All status codes 100..999, generated header lists (token-alphabet names, obs-text, blanks, duplicates, bare-LF continuations, > 8 KiB blocks, exactly max_headers fields) under all 2^13 segmentations of a 14-byte head, every split point of 10 bases, bytewise and random segments; status(), per-name get_all() order and values, total count and the hiding of Transfer-Encoding are compared with what the generator put on the wire. Boundary values of max_headers (0 ... usize::MAX) accept heads within them. Lines of exactly the 16 384-byte limit are accepted.",
                 note="Only syntactically valid heads are judged. Header values are compared after the normalisation the statement prescribes (trim spaces, LF -> space)."),
     "C19": dict(cat="fault_enumeration", design="DESIGN.md §3 C19",
                 technique="runtime monitoring with pause injection: the scripted peer stops at every wire offset; blocked transport reads are compared with the payload available at that point (reference decoder), no clock involved",
-                text="For every pause offset of 18 fixed responses (and sampled offsets of random / > 64 KiB bodies) x segmentation x read size, send() must return once the blank line arrived and every byte the statement calls available must be readable before any transport read reaches the pause; end-of-body must be reported without blocking once the frame is complete, and bodiless responses must read as empty without blocking. write_to() is judged at every pause offset as well (available bytes reach the writer before the transport is asked for more). Followed redirects whose body the server holds back must not block send().",
+                text="For every pause offset of 18 fixed responses (and sampled offsets of random / > 64 KiB bodies) x segmentation x read size, send() must return once the blank line arrived and every byte the statement calls available must be readable before any transport read reaches the pause; end-of-body must be reported without blocking once the frame is complete, and bodiless responses must read as empty without blocking. write_to() is judged at every pause offset as well (available bytes reach the writer before the transport is asked for more). Followed redirects whose body the server holds back must not block send(). Two requests in flight on real sockets: the one whose response arrived is delivered while the other server is silent.",
                 note="Logical oracle on the hooked transport: a read at a Pause step is what would block on a real socket. Uncompressed bodies only."),
     "C05": dict(cat="exploration", design="DESIGN.md §3 C05",
                 technique="runtime monitoring under hostile workloads: panic capture, counting-allocator heap bound, read/endless-stream fuel and wall watchdog as always-on monitors over exhaustive small-alphabet strings, mutations and endless streams; crashes attributed per shard process",
-                text="Every string up to length 5 (quick) / 7 (thorough) over a 9-symbol alphabet as head remainder, chunked body and CONNECT reply; mutated valid responses (incl. numeric blow-ups to 2^64 and beyond); 12 endless constructs; declared sizes >= 2^40 -- each driven through send() and every body API to the end plus three reads, while monitors watch for panics/aborts, heap above 256 KiB + 4x bytes seen, spinning at EOF, unbounded pulls from endless streams, more than max_redirections+1 dials, and non-termination.",
+                text="Every string up to length 5 (quick) / 7 (thorough) over a 9-symbol alphabet as head remainder, chunked body and CONNECT reply; mutated valid responses (incl. numeric blow-ups to 2^64 and beyond); 12 endless constructs; declared sizes >= 2^40 -- each driven through send() and every body API to the end plus three reads, while monitors watch for panics/aborts, heap above 256 KiB + 4x bytes seen, spinning at EOF, unbounded pulls from endless streams, more than max_redirections+1 dials, and non-termination. Heads with up to 40 001 distinct fields under limits above them must give Ok or Err.",
                 note="Bounds are engineering bounds (2x the documented limit + one buffer); the wall watchdog is inconclusive unless reproduced alone. Memory safety of dependencies is addressed only as far as Miri/valgrind passes reach (see DESIGN.md)."),
     "C06": dict(cat="fault_enumeration", design="DESIGN.md §3 C06",
                 technique="runtime monitoring with fault injection: reference encoders (flate2 levels 0-9, hand-written stored/fixed-Huffman encoder, gzip header options) produce the streams; every truncation offset and every trailer bit flip is served; payload is the prefix oracle after every read",
@@ -36,23 +36,23 @@ CHECKS = {
                 note="Trusts the reference encoders (cross-checked against flate2's decoder in the harness unit test). zlib-wrapped deflate, multi-member gzip and flips in raw-deflate bodies are outside the judged zone."),
     "C18": dict(cat="exploration", design="DESIGN.md §3 C18",
                 technique="runtime monitoring over a bounded-exhaustive configuration matrix plus every-cut segmentation: scripted responses, one-shot encoding_rs decode as oracle for the charset the statement selects",
-                text="Every exported charset x labels (canonical + WHATWG aliases, three letter cases) x Content-Type form x default-charset setting x API (text, text_with, text_utf8, text_reader with caller buffers 1..8192) x body kind (valid, random, truncated multi-byte tail, lone surrogates / escape garbage), every single cut offset of 14 multi-byte bodies, and random cases incl. BOM-prefixed bodies (judged for segmentation independence only); the decoded string must equal the one-shot decode with the selected charset and no API may fail. Labels of the WHATWG replacement decoder count as known labels. A third of the reads go through Response::split().",
+                text="Every exported charset x labels (canonical + WHATWG aliases, three letter cases) x Content-Type form x default-charset setting x API (text, text_with, text_utf8, text_reader with caller buffers 1..8192) x body kind (valid, random, truncated multi-byte tail, lone surrogates / escape garbage), every single cut offset of 14 multi-byte bodies, and random cases incl. BOM-prefixed bodies (judged for segmentation independence only); the decoded string must equal the one-shot decode with the selected charset and no API may fail. Labels of the WHATWG replacement decoder count as known labels. A third of the reads go through Response::split(). Long media types move the charset parameter around byte 64 of the value.",
                 note="encoding_rs (the library the crate itself uses) is the decoding oracle: what is checked is the choice of charset, totality and chunking independence, not encoding_rs's tables."),
     "C07": dict(cat="exploration", design="DESIGN.md §3 C07",
                 technique="runtime monitoring of the bytes received by the scripted peer: independent strict request parser (cross-checked with httparse), de-chunking reference decoder and a value model of the builder calls as oracle, over generated builder programs and custom Body programs with write faults",
-                text="Generated programs of builder calls and user-defined streaming bodies (arbitrary sequences of write/write_all/flush/empty write/write_vectored, BufWriter-wrapped or not) are sent; the bytes on the connection must decode as exactly one request whose method, percent-decoded path, query pairs, per-name header lists, credentials and de-framed body equal the inputs, with consistent framing and exactly one Connection: close, under short-write and Interrupted schedules. A request written after a send that failed mid-write on the same thread is judged the same way. A body source that fails part-way must make send() fail without the truncated body being sealed as a complete request.",
+                text="Generated programs of builder calls and user-defined streaming bodies (arbitrary sequences of write/write_all/flush/empty write/write_vectored, BufWriter-wrapped or not) are sent; the bytes on the connection must decode as exactly one request whose method, percent-decoded path, query pairs, per-name header lists, credentials and de-framed body equal the inputs, with consistent framing and exactly one Connection: close, under short-write and Interrupted schedules. A request written after a send that failed mid-write on the same thread is judged the same way. A body source that fails part-way must make send() fail without the truncated body being sealed as a complete request. A quarter of the requests come from a Session with set/appended default fields.",
                 note="Trusts the harness's request parser / value model (written from the documentation of the builder methods). Host is judged by C08; multipart part decoding by C15."),
     "C08": dict(cat="exploration", design="DESIGN.md §3 C08",
                 technique="runtime monitoring over a bounded-exhaustive configuration matrix: dial log of hook H1 plus the request bytes received by the peer (decrypted by a live TLS server behind the scripted CONNECT reply for tunnelled rows), reference decision function as oracle",
-                text="All 27 648 combinations of scheme, host kind (domain/IDN/IPv4/IPv6), port form, path, query, fragment, URL userinfo, proxy kind, proxy userinfo/port and caller-set Host are sent; the address handed to the connector and the request target / Host field seen by the peer must equal what the reference function derives from the statement. Caller-supplied Host fields (none, one, two, session + appended) are all replaced by the one computed Host; redirect Locations with credentials and fragments are judged too.",
+                text="All 27 648 combinations of scheme, host kind (domain/IDN/IPv4/IPv6), port form, path, query, fragment, URL userinfo, proxy kind, proxy userinfo/port and caller-set Host are sent; the address handed to the connector and the request target / Host field seen by the peer must equal what the reference function derives from the statement. Caller-supplied Host fields (none, one, two, session + appended) are all replaced by the one computed Host; redirect Locations with credentials and fragments are judged too. Ports equal to the other scheme's default keep their place in Host.",
                 note="The quick tier runs a stride of the tunnelled rows (each needs a TLS handshake), the thorough tier all of them. The Host field of proxied plain-http requests is recorded, not judged."),
     "C09": dict(cat="exploration", design="DESIGN.md §3 C09",
                 technique="runtime monitoring of request histories: the harness plays the whole web through reactive scripted transports; the walk observed (address dialled + request target per hop) is compared with a simulation of the same table using the harness's own RFC 3986 resolver",
-                text="Generated redirect webs (chains, trees, cycles; all 3xx codes; every Location form incl. missing, unusable and non-http) are walked by send() under max_redirections {0,1,2,5,7} and follow on/off; the observed request sequence, the error raised at the bound, the set of followed statuses and Response::url/status must equal the reference walk, including the exhaustive chain-length x max boundary table. Every walk is repeated on the same PreparedRequest and must not depend on the first. Chains are also walked under budgets around 2^31 and 2^32.",
+                text="Generated redirect webs (chains, trees, cycles; all 3xx codes; every Location form incl. missing, unusable and non-http) are walked by send() under max_redirections {0,1,2,5,7} and follow on/off; the observed request sequence, the error raised at the bound, the set of followed statuses and Response::url/status must equal the reference walk, including the exhaustive chain-length x max boundary table. Every walk is repeated on the same PreparedRequest and must not depend on the first. Chains are also walked under budgets around 2^31 and 2^32. A non-http Location ends the exchange also when an http proxy is configured.",
                 note="Judged on the subset of reference syntax where RFC 3986 and the WHATWG URL standard agree; the rest is executed and only its prefix judged."),
     "C11": dict(cat="exploration", design="DESIGN.md §3 C11",
                 technique="runtime monitoring of the public decision function and of the dial: exhaustive small-scope host x no-proxy-list space and the 8-variable environment space (each shard process owns its environment), reference decision returning sets of acceptable outcomes",
-                text="All hosts of 1..3 labels over a 5-label alphabet (+ IP literals, mixed case) x all no-proxy lists of <= 2 entries over 10 entry shapes x scheme x proxy configuration, through the builder and through NO_PROXY; all 7^8 assignments of the eight proxy variables in thorough (20 000 sampled in quick); end-to-end sends confirm that the address dialled agrees with for_url. Default-settings requests made while each environment is in force must dial what that environment implies (no stale process-wide state).",
+                text="All hosts of 1..3 labels over a 5-label alphabet (+ IP literals, mixed case) x all no-proxy lists of <= 2 entries over 10 entry shapes x scheme x proxy configuration, through the builder and through NO_PROXY; all 7^8 assignments of the eight proxy variables in thorough (20 000 sampled in quick); end-to-end sends confirm that the address dialled agrees with for_url. Default-settings requests made while each environment is in force must dial what that environment implies (no stale process-wide state). for_url on other schemes is None; names written with a trailing dot are part of the host space.",
                 note="No hook needed. Gray cases (listed in the evidence assumptions) are executed but not judged."),
     "C10": dict(cat="exploration", design="DESIGN.md §3 C10",
                 technique="runtime monitoring of per-hop wire bytes and dial log in scripted redirect chains (tunnelled hops observed through a live TLS server); per-hop application of the C07 request oracle, the reference proxy decision and cross-hop equality for 307/308",
@@ -72,7 +72,7 @@ CHECKS = {
                 note="Quick runs the native-tls flavour, thorough both TLS flavours. IPv6 origins run with certificate checks waived (see DESIGN.md §8)."),
     "C14": dict(cat="exploration", design="DESIGN.md §3 C14",
                 technique="runtime monitoring of real TLS handshakes over loopback against fixture certificates (resolver hook H2 maps the names), exhaustive flag/certificate/path/placement matrix decided by a truth table, under both TLS backends (two harness flavours)",
-                text="Every cell of {CA-anchored, self-signed, unknown issuer, expired} x {name matches, differs} x accept_invalid_certs x accept_invalid_hostnames x root added x {direct, CONNECT through a real loopback proxy, https proxy with nested TLS} x {flags set on session, request, clone} is executed together with a sibling / original request that must stay unaffected; success is allowed only where the truth table allows it (safety), and required for the CA->leaf topology on DNS names or when certificate checks are waived (liveness); a rejected peer must never have received the request. Both native-tls and rustls flavours run in quick and thorough. Also: settings shared with live requests when unrelated setters run, and a self-signed (valid / expired) server certificate added as its own root. URLs with IP-literal hosts (address covered / not covered by the certificate), direct and through a CONNECT proxy.",
+                text="Every cell of {CA-anchored, self-signed, unknown issuer, expired} x {name matches, differs} x accept_invalid_certs x accept_invalid_hostnames x root added x {direct, CONNECT through a real loopback proxy, https proxy with nested TLS} x {flags set on session, request, clone} is executed together with a sibling / original request that must stay unaffected; success is allowed only where the truth table allows it (safety), and required for the CA->leaf topology on DNS names or when certificate checks are waived (liveness); a rejected peer must never have received the request. Both native-tls and rustls flavours run in quick and thorough. Also: settings shared with live requests when unrelated setters run, and a self-signed (valid / expired) server certificate added as its own root. URLs with IP-literal hosts (address covered / not covered by the certificate), direct and through a CONNECT proxy. Sibling sessions/requests with different added roots keep their own anchors in both handshake orders.",
                 note="Trusts OpenSSL/rustls to perform the checks they are asked to perform and the fixtures (verified with openssl verify at generation). tls-rustls-native-roots and Windows paths are not run."),
     "C13": dict(cat="fault_enumeration", design="DESIGN.md §3 C13",
                 technique="runtime monitoring with fault injection on real loopback sockets: peers stall or drip at every protocol phase; elapsed-time classes, end-of-body signals and /proc thread/fd counts are the observations; hook H3 forces reader/watchdog interleavings; load probe + retry keep wall-clock verdicts honest",
@@ -80,7 +80,7 @@ CHECKS = {
                 note="Timing classes are separated by more than an order of magnitude (bound T+1.5 s vs a 20 s hold); a suspect timing on a loaded machine is retried and then reported inconclusive. Connect phase, Windows branches not covered."),
     "C17": dict(cat="exploration", design="DESIGN.md §3 C17",
                 technique="runtime monitoring on real loopback sockets: accept / refuse / black-hole listeners behind a name mapped by resolver hook H2, exhaustive behaviour assignments; listener logs, result and coarse elapsed-time classes compared with a reference racing order",
-                text="Every assignment of {accept, refuse, black-hole} to address lists of 0..3 entries per family, both family orders in the resolver output, four deadline classes (3 198 x 4 cells in thorough, a stride in quick), plus single-address and IP-literal fast paths: the call succeeds iff an address accepts in time, the request arrives at the first acceptor of the order v6[0], v4[0], v6[1], ..., k black-holes before it cost at most k x 200 ms + 1.5 s, all-refuse yields ConnectionRefused, and failures are reported within the attempts' own limits. connect_timeout boundary values up to Duration::MAX.",
+                text="Every assignment of {accept, refuse, black-hole} to address lists of 0..3 entries per family, both family orders in the resolver output, four deadline classes (3 198 x 4 cells in thorough, a stride in quick), plus single-address and IP-literal fast paths: the call succeeds iff an address accepts in time, the request arrives at the first acceptor of the order v6[0], v4[0], v6[1], ..., k black-holes before it cost at most k x 200 ms + 1.5 s, all-refuse yields ConnectionRefused, and failures are reported within the attempts' own limits. connect_timeout boundary values up to Duration::MAX. The second connection to a name whose first winner stopped answering is raced afresh.",
                 note="Depends on Linux loopback behaviour (SYN drop on accept-queue overflow, verified by a probe connect per black-hole) and on coarse wall-clock classes; suspect timings are retried after a load probe."),
 }
 
